@@ -4,6 +4,8 @@ import (
 	"fmt"
 	"os"
 
+	"github.com/hashicorp/raft"
+
 	"verifharness/common"
 	"verifharness/simfs"
 )
@@ -236,10 +238,18 @@ func RunCase(c Case, p string) (res common.Result) {
 					v3.add("C01", "open-failed", "%s: Open = %v with acknowledged entries [%d,%d]", where3, err, t3.m.First, t3.m.Last)
 				}
 			} else {
-				t3.judgeRecovery(e3.w, e3.fs, &v3, where3)
+				matched := t3.judgeRecovery(e3.w, e3.fs, &v3, where3)
 				checkDir(e3.fs, &v3, where3)
 				if len(v3.fails) == 0 {
 					usability(e3, t3, &v3, where3)
+				} else if !matched {
+					// the recovered contents are already wrong (other properties' verdicts); C03 still asks
+					// whether the WAL at least accepts an append at its own LastIndex+1
+					if last, err := e3.w.LastIndex(); err == nil {
+						if err := e3.w.StoreLogs([]*raft.Log{{Index: last + 1, Data: []byte("probe")}}); err != nil {
+							v3.add("C03", "append-refused-after-recovery", "%s: the recovered WAL reports LastIndex=%d but StoreLogs(%d) = %v", where3, last, last+1, err)
+						}
+					}
 				}
 				e3.closeWAL()
 			}
